@@ -12,7 +12,7 @@ RULE = ('enumerated grid: form in {with, decorator, decorator-on-generator, deco
         'serializable, optimistic=False, ddl} x scripted bodies (finish; raise first / after writes+flush / after an '
         'explicit commit / inside a nested session; nested serializable / ddl inside plain; explicit rollback; injected '
         'commit failure at the outermost commit or at an explicit commit) x exception in {allowed, subclass of allowed, '
-        'retryable, other, TransactionError subclass, should_retry, KeyboardInterrupt, GeneratorExit} x second attempt '
+        'retryable, other, TransactionError subclass, should_retry, allowed and should_retry at once, KeyboardInterrupt, GeneratorExit} x second attempt '
         'succeeds / fails; generator forms x {iterate, throw into, close, abandon}. Oracle: executable specification of '
         'the documented rule (rows committed, number of body executions, propagated exception, each attempt starts '
         'from the committed state). Every case is non-trivial; distinct by (form, options, script, drive).')
@@ -24,7 +24,7 @@ COMPONENTS = {
              'HTTPResponse / HTTPError conventions', 'DB-API proxy (commit fault injection)'],
 }
 
-EXCS = ['Allowed', 'AllowedSub', 'Retry', 'Other', 'Txn', 'ShouldRetry', 'KbInt', 'GenExit']
+EXCS = ['Allowed', 'AllowedSub', 'Retry', 'Other', 'Txn', 'ShouldRetry', 'AllowedShouldRetry', 'KbInt', 'GenExit']
 FLAGS = [{}, {'strict': True}, {'immediate': True}, {'serializable': True}, {'optimistic': False}, {'ddl': True}]
 OK = [['mark']]
 
